@@ -170,9 +170,9 @@ class LongHex(SubCheck):
         return out
 
 
-INTS = ["-10", "0", "1", "127", "128", "255", "256", "300"]
-ALPHAS = [None, "-1", "0", "0.5", ".25", "1", "2", "0.999"]
-PCTS = ["-5", "0", "50", "99.6", "100", "120", "33.3", "0.2"]
+INTS = ["-10", "0", "1", "127", "128", "255", "256", "300", "99999999999999999999"]
+ALPHAS = [None, "-1", "0", "0.5", ".25", "1", "2", "0.999", "1e999", "-1e999"]
+PCTS = ["-5", "0", "50", "99.6", "100", "120", "33.3", "0.2", "1e999", "-1e999"]
 
 
 def in_range(v, rng):
